@@ -342,6 +342,18 @@ func (x *Exec) frameObligations(fr *Frame, penv *SpecEnv, exit *State) {
 		switch t := e.(type) {
 		case EField:
 			base := x.evalVal(entryEnv, t.X)
+			if _, isIface := base.Typ.Underlying().(*types.Interface); isIface {
+				// ghost field of an interface-typed object
+				name := types.TypeString(base.Typ, func(p *types.Package) string { return p.Name() })
+				is, ok := x.DB.Ifaces[name]
+				if !ok {
+					panic(specErr("modifies %s: no interface specification for %s", mt.Text, name))
+				}
+				a := x.ghostAddr(is, t.Name, base)
+				hn, _, _ := x.rootHeap(a)
+				ex[hn] = append(ex[hn], a.Ref)
+				continue
+			}
 			pt := pointee(base.Typ)
 			su, _ := asStruct(pt)
 			idx, _ := findField(su, t.Name)
